@@ -182,6 +182,11 @@ CORPUS = {
         call(1, 1, "wamp.session.add_testament", args=L(S("x.y"), L(I(1)), D()), kwargs=D(publish_options=D(ppt_scheme=S("x_custom")))),
         drop(1),
         join(2, authid="b"), call(2, 1, "wamp.session.count")]),
+    # 9df542e  an ended session gets no registration meta events about itself
+    ("C05", "ended-session-gets-own-unregister-events"): dict(realms=[{}], ops=OBS + [
+        join(1, authid="a"), sub(1, 1, "wamp.registration.", "prefix"),
+        msg(1, "reg", req=2, uri="p.q"),
+        msg(1, "bye")]),
     ("C18", "kill-all-on-leave"): dict(realms=[{"kill": True}], ops=OBS + [
         join(1, authid="a"), join(2, authid="b"), sub(0, 2, "wamp.session.on_leave"),
         call(0, 3, "wamp.session.kill_all", kwargs=D(reason=S("app.done"), message=S("bye")))]),
